@@ -561,7 +561,8 @@ class TransactionResult:
             return {k: tuple(v) if isinstance(v,list) else v for k,v in item.items()}
 
         def packed_list2tuple(item:dict):
-            return {k: list(map(tuple,v)) if k != 'rewards' and isinstance(v[0],list) else v for k,v in item.items()}
+            l2t = lambda x: tuple(x) if isinstance(x,list) else x #a cell can be absent (None) in some rows
+            return {k: list(map(l2t,v)) if k != 'rewards' and any(isinstance(x,list) for x in v) else v for k,v in item.items()}
 
         if version == 3:
             raise CobaException("Deprecated transaction format. Please revert to an older version of Coba to read it.")
